@@ -127,6 +127,30 @@ func genC07(g *G, n int, out io.Writer, full bool) {
 		c := genC01Graph(g, i, false)
 		emit("random", i, ProfileSpec{Atoms: c.Atoms, Paths: c.Paths, Validations: c.Validations})
 	}
+	// messages quoting node properties: 0..6 placeholders, the same property several times, one IRI under two aliases
+	// (shapes / raml-shapes are both built in), on rules with one and with several generated branches
+	phPool := []string{"ex.p0", "ex.p1", "ex.p0", "shapes.schema", "raml-shapes.schema", "core.name", "ex.p1"}
+	nMsg := 14
+	if full {
+		nMsg = 120
+	}
+	for i := 0; i < nMsg; i++ {
+		k := i % 7
+		msg := "m"
+		for j := 0; j < k; j++ {
+			ph := phPool[(i/7+j*(1+i%3))%len(phPool)]
+			if i < 7 {
+				ph = phPool[j%len(phPool)] // the first seven: the pool in order, so p0 is repeated from k = 3 on
+			}
+			msg += fmt.Sprintf(" [{{%s%s%s}}]", []string{"", " "}[j%2], ph, []string{"", " "}[(i+j)%2])
+		}
+		rule := Rule{Atom: ip(0)}
+		if i%2 == 1 {
+			rule = Rule{Or: []Rule{{Atom: ip(0)}, {And: []Rule{{Atom: ip(1)}, {Not: &Rule{Atom: ip(0)}}}}}}
+		}
+		emit("message", i, ProfileSpec{Atoms: []Atom{{Kind: "minCount", Path: PP("p0", false), Arg: i64p(1)}, {Kind: "maxCount", Path: PP("p1", false), Arg: i64p(2)}},
+			Validations: []Validation{{Name: "msg", Class: NS + "T", Rule: rule, Message: msg}}})
+	}
 	// profile names that must sanitise into a package name
 	for i, name := range []string{"a", "A b", "1.0", "é", "--", "x_y", "profile", "package", "data", "input", "", " "} {
 		p := ProfileSpec{Atoms: []Atom{{Kind: "minCount", Path: PP("p0", false), Arg: i64p(1)}}, Validations: []Validation{{Name: "v", Class: NS + "T", Rule: Rule{Atom: ip(0)}}}}
